@@ -14,9 +14,9 @@ package main
 //   wait(true), once it has returned v: v == SIGTERM and the delivered count is
 //     zero, or v is the second signal and that signal was delivered;
 //   wait(true) must have returned whenever the delivered count is zero (also
-//     when it already is zero at the call).  "Has not returned" is only claimed
-//     when all senders have completed AND the goroutine dump shows wait parked
-//     in select AND 2 s have passed.
+//     when it already is zero at the call) or a second signal was delivered.
+//     "Has not returned" is only claimed when all senders have completed AND
+//     the goroutine dump shows wait parked in select AND 2 s have passed.
 
 import (
 	"encoding/json"
@@ -34,15 +34,18 @@ import (
 )
 
 // A history is a list of tokens:
-//   "S"      a new handler starts (handlers are numbered in order of appearance)
-//   "F<k>"   handler k finishes (only after its S)
-//   "I"/"T"  a signal (SIGINT / SIGTERM): the first one ends wait(false), a
-//            second one may follow anywhere after it
-//   "C"      main calls wait(true) (exactly once, after the first signal);
-//            events between the first signal and "C" are sent while nobody is
-//            receiving, so their senders block until wait(true) runs.
-// If wait(true) is still running after the last token the harness sends a final
-// signal so that every history ends with wait(true) returning.
+//
+//	"S"      a new handler starts (handlers are numbered in order of appearance)
+//	"F<k>"   handler k finishes (only after its S)
+//	"I"/"T"  a signal (SIGINT / SIGTERM): the first one ends wait(false), a
+//	         second one may follow anywhere after it
+//	"C"      main calls wait(true) (once, after the first signal); events between
+//	         the first signal and "C" are sent while nobody is receiving, so
+//	         their senders block until wait(true) runs.
+//
+// If the history has no first signal / no "C", the harness appends them; if
+// wait(true) is still running after the last token the harness sends a final
+// signal, so that every history ends with wait(true) returning.
 type vf19Hist []string
 
 func vf19SigOf(tok string) os.Signal {
@@ -52,95 +55,118 @@ func vf19SigOf(tok string) os.Signal {
 	return syscall.SIGTERM
 }
 
+type vf19Sender struct {
+	gid     int
+	queued  int  // events handed to this goroutine and not yet delivered
+	sending bool // inside the channel send
+	cmds    chan int
+}
+
 type vf19Mon struct {
 	mu   sync.Mutex
 	cond *sync.Cond
 	m    *termMonitor
 
-	issued    int // commands handed to handler / signal goroutines
-	completed int // ... whose send has completed
-	delivered int // model count: sum of completed handler events
+	issued    int // events handed to sender goroutines
+	completed int // ... whose send has completed (= delivered)
+	delivered int // model count: sum of delivered handler events
+	afterSig  int // handler events delivered after the first signal was delivered
 	sigDone   [2]bool
 	sigVal    [2]os.Signal
 	nsig      int
-
-	handlers []*vf19Handler
-	gids     map[int]bool // goroutines that send
+	senders   []*vf19Sender
 
 	waitGID  [2]int
 	waitRet  [2]bool
 	waitVal  [2]os.Signal
 	panicVal any
 	wg       sync.WaitGroup
-	stop     chan struct{}
-}
-
-type vf19Handler struct {
-	cmds chan int // +1 start, -1 finish
 }
 
 func vf19NewMon() *vf19Mon {
-	mo := &vf19Mon{gids: map[int]bool{}, stop: make(chan struct{})}
+	mo := &vf19Mon{}
 	mo.cond = sync.NewCond(&mo.mu)
 	mo.m = &termMonitor{sigChan: make(chan os.Signal), handlerChan: make(chan int)}
 	return mo
 }
 
-func (mo *vf19Mon) newHandler() *vf19Handler {
-	h := &vf19Handler{cmds: make(chan int, 4)}
-	mo.handlers = append(mo.handlers, h)
+// deliverLocked is called by a sender right after its send completed.
+func (mo *vf19Mon) deliveredLocked(s *vf19Sender, cmd int) {
+	s.sending = false
+	s.queued--
+	mo.completed++
+	mo.delivered += cmd
+	if mo.sigDone[0] && cmd != 0 {
+		mo.afterSig++
+	}
+	mo.cond.Broadcast()
+}
+
+// newHandler starts a handler goroutine that executes the commands it is
+// given (+1: onHandlerStart, -1: onHandlerFinish) in order; pre, if not nil,
+// is called before each command (free-running delays).
+func (mo *vf19Mon) newHandler(pre func(cmd int)) *vf19Sender {
+	s := &vf19Sender{cmds: make(chan int, 4)}
 	mo.wg.Add(1)
 	ready := make(chan struct{})
 	go func() {
 		defer mo.wg.Done()
 		mo.mu.Lock()
-		mo.gids[vf19GID()] = true
+		s.gid = vf19GID()
+		mo.senders = append(mo.senders, s)
 		mo.mu.Unlock()
 		close(ready)
-		for cmd := range h.cmds {
+		for cmd := range s.cmds {
+			if pre != nil {
+				pre(cmd)
+			}
+			mo.mu.Lock()
+			s.sending = true
+			mo.mu.Unlock()
 			if cmd > 0 {
 				mo.m.onHandlerStart()
 			} else {
 				mo.m.onHandlerFinish()
 			}
 			mo.mu.Lock()
-			mo.completed++
-			mo.delivered += cmd
-			mo.cond.Broadcast()
+			mo.deliveredLocked(s, cmd)
 			mo.mu.Unlock()
 		}
 	}()
 	<-ready
-	return h
+	return s
 }
 
-func (mo *vf19Mon) send(h *vf19Handler, cmd int) {
+func (mo *vf19Mon) send(s *vf19Sender, cmd int) {
 	mo.mu.Lock()
 	mo.issued++
+	s.queued++
 	mo.mu.Unlock()
-	h.cmds <- cmd
+	s.cmds <- cmd
 }
 
 func (mo *vf19Mon) signal(sig os.Signal) {
+	s := &vf19Sender{queued: 1}
+	mo.wg.Add(1)
 	mo.mu.Lock()
 	k := mo.nsig
-	mo.nsig++
-	mo.issued++
 	mo.sigVal[k] = sig
+	mo.issued++
+	mo.nsig++
 	mo.mu.Unlock()
-	mo.wg.Add(1)
 	ready := make(chan struct{})
 	go func() {
 		defer mo.wg.Done()
 		mo.mu.Lock()
-		mo.gids[vf19GID()] = true
+		s.gid = vf19GID()
+		s.sending = true
+		mo.senders = append(mo.senders, s)
 		mo.mu.Unlock()
 		close(ready)
 		mo.m.sigChan <- sig
 		mo.mu.Lock()
-		mo.completed++
 		mo.sigDone[k] = true
-		mo.cond.Broadcast()
+		mo.deliveredLocked(s, 0)
 		mo.mu.Unlock()
 	}()
 	<-ready
@@ -158,7 +184,7 @@ func (mo *vf19Mon) callWait(k int, termOnNoHandlers bool) {
 			p := recover()
 			mo.mu.Lock()
 			if p != nil {
-				mo.panicVal = p
+				mo.panicVal = fmt.Sprintf("%v\n%s", p, vf19DumpText())
 			}
 			mo.waitRet[k], mo.waitVal[k] = true, v
 			mo.cond.Broadcast()
@@ -169,53 +195,133 @@ func (mo *vf19Mon) callWait(k int, termOnNoHandlers bool) {
 	<-ready
 }
 
+// ticker wakes cond waiters periodically so that they can look at the clock.
+func (mo *vf19Mon) ticker(d time.Duration) (stop func()) {
+	done := make(chan struct{})
+	go func() {
+		t := time.NewTicker(d)
+		defer t.Stop()
+		for {
+			select {
+			case <-done:
+				return
+			case <-t.C:
+				mo.mu.Lock()
+				mo.cond.Broadcast()
+				mo.mu.Unlock()
+			}
+		}
+	}()
+	return func() { close(done) }
+}
+
 // settle waits until wait #k has returned or every issued event has been
-// delivered.  Returns true if wait #k has returned.
+// delivered.  Reports whether wait #k has returned.
 func (mo *vf19Mon) settle(k int) bool {
 	mo.mu.Lock()
 	defer mo.mu.Unlock()
+	if mo.waitRet[k] || mo.completed == mo.issued {
+		return mo.waitRet[k]
+	}
+	defer mo.ticker(500 * time.Millisecond)()
 	t0 := time.Now()
-	tick := time.AfterFunc(time.Second, func() { mo.mu.Lock(); mo.cond.Broadcast(); mo.mu.Unlock() })
-	defer tick.Stop()
 	for !mo.waitRet[k] && mo.completed < mo.issued {
 		if time.Since(t0) > vf19Watchdog {
 			mo.mu.Unlock()
 			vf19Inconclusive("monitor: neither wait returned nor the pending sends completed within %v", vf19Watchdog)
 		}
-		tick.Reset(time.Second)
 		mo.cond.Wait()
 	}
 	return mo.waitRet[k]
 }
 
-// stable waits (after wait #k has returned) until every sender that has not
-// completed is parked in its channel send, so that the delivered count is final.
+// awaitReturn is called when wait #k must return now.  It reports false when it
+// does not, decided by the three-part rule: the senders have completed
+// (k == 0: the signal's sender; k == 1: all of them) AND the goroutine dump
+// shows wait parked in select AND 2 s have passed.
+func (mo *vf19Mon) awaitReturn(k int) bool {
+	mo.mu.Lock()
+	defer mo.mu.Unlock()
+	if mo.waitRet[k] {
+		return true
+	}
+	defer mo.ticker(50 * time.Millisecond)()
+	t0 := time.Now()
+	for !mo.waitRet[k] {
+		el := time.Since(t0)
+		if el >= 2*time.Second {
+			sendersDone := mo.completed == mo.issued
+			if k == 0 {
+				sendersDone = mo.sigDone[0]
+			}
+			gid := mo.waitGID[k]
+			mo.mu.Unlock()
+			inSelect := false
+			for _, g := range vf19Dump() {
+				if g.id == gid && g.state == "select" && strings.Contains(g.text, ".(*termMonitor).wait(") {
+					inSelect = true
+				}
+			}
+			mo.mu.Lock()
+			if mo.waitRet[k] {
+				return true
+			}
+			if sendersDone && inSelect {
+				return false
+			}
+			if el > vf19Watchdog {
+				mo.mu.Unlock()
+				vf19Inconclusive("monitor: wait #%d neither returned nor parked in select within %v (senders completed: %v)", k, vf19Watchdog, sendersDone)
+			}
+		}
+		mo.cond.Wait()
+	}
+	return true
+}
+
+// stable is called after wait(true) has returned: nobody receives any more, so
+// the delivered count is final once every sender that still holds an event is
+// parked in its channel send (goroutine dump).
 func (mo *vf19Mon) stable() {
 	t0 := time.Now()
 	for {
 		mo.mu.Lock()
-		pendingSends := mo.issued - mo.completed
-		gids := make(map[int]bool, len(mo.gids))
-		for g := range mo.gids {
-			gids[g] = true
+		c1 := mo.completed
+		type snap struct {
+			gid     int
+			sending bool
+		}
+		var pend []snap
+		for _, s := range mo.senders {
+			if s.queued > 0 {
+				pend = append(pend, snap{s.gid, s.sending})
+			}
 		}
 		mo.mu.Unlock()
-		if pendingSends == 0 {
+		if len(pend) == 0 {
 			return
 		}
-		parked := 0
-		for _, g := range vf19Dump() {
-			if gids[g.id] && g.state == "chan send" {
-				parked++
+		ok := true
+		for _, p := range pend {
+			if !p.sending {
+				ok = false
+			}
+		}
+		if ok {
+			states := map[int]string{}
+			for _, g := range vf19Dump() {
+				states[g.id] = g.state
+			}
+			for _, p := range pend {
+				if states[p.gid] != "chan send" {
+					ok = false
+				}
 			}
 		}
 		mo.mu.Lock()
-		again := mo.issued - mo.completed
+		c2 := mo.completed
 		mo.mu.Unlock()
-		// Every goroutine with an undelivered event is parked in its send: a handler
-		// goroutine holds at most one send at a time, further queued commands of the
-		// same handler count as pending too, hence <=.
-		if again == pendingSends && parked > 0 && parked <= pendingSends && parked == mo.blockedSenders(gids) {
+		if ok && c1 == c2 {
 			return
 		}
 		if time.Since(t0) > vf19Watchdog {
@@ -225,53 +331,54 @@ func (mo *vf19Mon) stable() {
 	}
 }
 
-// blockedSenders counts sender goroutines that are not idle (idle = waiting for
-// the next command in "chan receive", or exited).
-func (mo *vf19Mon) blockedSenders(gids map[int]bool) int {
-	n := 0
-	for _, g := range vf19Dump() {
-		if !gids[g.id] {
-			continue
-		}
-		if g.state == "chan receive" && strings.Contains(g.text, "newHandler") {
-			continue // idle handler goroutine
-		}
-		n++
-	}
-	return n
-}
-
-// hung applies the three-part rule for "wait has not returned".
-func (mo *vf19Mon) hung(k int) bool {
+// sigDelivered is called after a wait has returned a signal value: it waits
+// until the sender of signal #k has completed its send (true), or is found
+// parked in that send (false: wait returned without receiving it).
+func (mo *vf19Mon) sigDelivered(k int) bool {
 	t0 := time.Now()
 	for {
 		mo.mu.Lock()
-		ret, all, gid := mo.waitRet[k], mo.completed == mo.issued, mo.waitGID[k]
-		mo.mu.Unlock()
-		if ret {
-			return false
-		}
-		inSelect := false
-		for _, g := range vf19Dump() {
-			if g.id == gid && g.state == "select" && strings.Contains(g.text, "main.(*termMonitor).wait") {
-				inSelect = true
+		done := mo.sigDone[k]
+		gid := -1
+		n := 0
+		for _, s := range mo.senders {
+			if s.cmds == nil {
+				if n == k {
+					gid = s.gid
+				}
+				n++
 			}
 		}
-		if all && inSelect && time.Since(t0) >= 2*time.Second {
+		mo.mu.Unlock()
+		if done {
 			return true
 		}
-		if time.Since(t0) > vf19Watchdog {
-			vf19Inconclusive("monitor: wait neither returned nor parked in select within %v (all senders completed: %v)", vf19Watchdog, all)
+		if gid >= 0 {
+			for _, g := range vf19Dump() {
+				if g.id == gid && g.state == "chan send" {
+					mo.mu.Lock()
+					done = mo.sigDone[k]
+					mo.mu.Unlock()
+					return done
+				}
+			}
 		}
-		time.Sleep(20 * time.Millisecond)
+		if time.Since(t0) > vf19Watchdog {
+			vf19Inconclusive("monitor: signal sender neither completed nor parked within %v", vf19Watchdog)
+		}
+		time.Sleep(10 * time.Microsecond)
 	}
 }
 
 // cleanup drains the channels so that blocked senders finish.
 func (mo *vf19Mon) cleanup() {
-	for _, h := range mo.handlers {
-		close(h.cmds)
+	mo.mu.Lock()
+	for _, s := range mo.senders {
+		if s.cmds != nil {
+			close(s.cmds)
+		}
 	}
+	mo.mu.Unlock()
 	done := make(chan struct{})
 	go func() { mo.wg.Wait(); close(done) }()
 	for {
@@ -284,139 +391,143 @@ func (mo *vf19Mon) cleanup() {
 	}
 }
 
-type vf19HistStats struct {
-	zeroAtSignal     bool // no handler active when the first signal was delivered
-	finishAfterSig   bool
-	gapEvents        bool
-	secondSignal     bool
-	zeroAtCall       bool // delivered count zero and nothing pending when wait(true) was called
-	endedByZero      bool
-	endedBySignal    bool
-	handlers, events int
+// returnOracle evaluates the value wait(true) returned (call after stable()).
+func (mo *vf19Mon) returnOracle(st *vf19HistStats, desc string) string {
+	mo.mu.Lock()
+	defer mo.mu.Unlock()
+	if mo.panicVal != nil {
+		return fmt.Sprintf("VIOL[c19-panic]: wait panicked: %v; %s", mo.panicVal, desc)
+	}
+	v := mo.waitVal[1]
+	sig2 := mo.nsig == 2 && mo.sigDone[1]
+	okZero := v == syscall.SIGTERM && mo.delivered == 0
+	okSig := sig2 && v == mo.sigVal[1]
+	if !okZero && !okSig {
+		return fmt.Sprintf("VIOL[c19-wait-true-return]: wait(true) returned %v while %d handlers were active (sum of delivered start/finish events) and second signal delivered = %v; %s", v, mo.delivered, sig2, desc)
+	}
+	if okSig && !okZero {
+		st.endedBySignal = true
+	} else {
+		st.endedByZero = true
+	}
+	return ""
 }
 
-// vf19RunHist drives one history; returns "" or a violation text.
+type vf19HistStats struct {
+	zeroAtSignal   bool // no handler active when the first signal was delivered
+	finishAfterSig bool
+	gapEvents      bool
+	secondSignal   bool
+	zeroAtCall     bool // nothing active and nothing pending when wait(true) was called
+	endedByZero    bool
+	endedBySignal  bool
+	used           int // tokens executed before wait(true) returned
+}
+
+// vf19RunHist drives one history in lock-step; returns "" or a violation text.
 func vf19RunHist(h vf19Hist, st *vf19HistStats) string {
 	mo := vf19NewMon()
 	defer mo.cleanup()
-	desc := func() string { return "history " + strings.Join(h, " ") }
-	started := map[int]*vf19Handler{}
-	nh := 0
-	phase := 0 // 0: wait(false) running; 1: returned, wait(true) not yet called; 2: wait(true) running; 3: done
+	desc := "history: " + strings.Join(h, " ")
+	var handlers []*vf19Sender
+	// phase 0: wait(false) running; 1: it returned, wait(true) not yet called;
+	// 2: wait(true) running; 3: wait(true) returned.
+	phase := 0
 	mo.callWait(0, false)
 
+	firstSignal := func(sig os.Signal) string {
+		mo.signal(sig)
+		mo.settle(0)
+		if !mo.awaitReturn(0) {
+			return fmt.Sprintf("VIOL[c19-wait-false-hang]: wait(false) does not return although the signal %v was delivered (dump shows it parked in select, 2 s passed); %s", sig, desc)
+		}
+		sd := mo.sigDelivered(0)
+		mo.mu.Lock()
+		v, pv, d := mo.waitVal[0], mo.panicVal, mo.delivered
+		mo.mu.Unlock()
+		if pv != nil {
+			return fmt.Sprintf("VIOL[c19-panic]: wait(false) panicked: %v; %s", pv, desc)
+		}
+		if v != sig || !sd {
+			return fmt.Sprintf("VIOL[c19-wait-false-return]: wait(false) returned %v, the signal sent was %v (delivered=%v); %s", v, sig, sd, desc)
+		}
+		st.zeroAtSignal = d == 0
+		phase = 1
+		return ""
+	}
+	callTrue := func() {
+		mo.mu.Lock()
+		st.zeroAtCall = mo.delivered == 0 && mo.completed == mo.issued
+		pending := mo.issued > mo.completed
+		mo.mu.Unlock()
+		if pending {
+			// let the gap senders reach their channel send (not decisive for any oracle)
+			time.Sleep(30 * time.Microsecond)
+		}
+		mo.callWait(1, true)
+		phase = 2
+	}
 	// checkTrue evaluates the wait(true) oracles at a settled point.
 	checkTrue := func() string {
-		if mo.settle(1) {
-			mo.stable()
+		if !mo.settle(1) {
 			mo.mu.Lock()
-			defer mo.mu.Unlock()
-			if mo.panicVal != nil {
-				return fmt.Sprintf("VIOL[c19-panic]: wait(true) panicked: %v; %s", mo.panicVal, desc())
+			d, sig2 := mo.delivered, mo.nsig == 2 && mo.sigDone[1]
+			mo.mu.Unlock()
+			if d != 0 && !sig2 {
+				return "" // handlers are active, no second signal: wait(true) has to keep running
 			}
-			v := mo.waitVal[1]
-			okZero := v == syscall.SIGTERM && mo.delivered == 0
-			okSig := mo.nsig == 2 && mo.sigDone[1] && v == mo.sigVal[1]
-			if !okZero && !okSig {
-				return fmt.Sprintf("VIOL[c19-wait-true-return]: wait(true) returned %v with %d handlers active (delivered events) and second signal delivered=%v; %s", v, mo.delivered, mo.nsig == 2 && mo.sigDone[1], desc())
-			}
-			if okSig && !okZero {
-				st.endedBySignal = true
-			} else {
-				st.endedByZero = true
-			}
-			phase = 3
-			return ""
-		}
-		// not returned, everything delivered
-		mo.mu.Lock()
-		d, sig2 := mo.delivered, mo.nsig == 2 && mo.sigDone[1]
-		mo.mu.Unlock()
-		if d == 0 || sig2 {
-			if mo.hung(1) {
+			if !mo.awaitReturn(1) {
 				why := "no handler is active"
 				if sig2 {
 					why = "a second signal was delivered"
 				}
-				return fmt.Sprintf("VIOL[c19-shutdown-hang]: wait(true) does not return although %s (all senders completed, goroutine dump shows wait parked in select, 2 s passed); %s", why, desc())
+				return fmt.Sprintf("VIOL[c19-shutdown-hang]: wait(true) does not return although %s (all senders completed, goroutine dump shows wait parked in select, 2 s passed); %s", why, desc)
 			}
-			return checkTrueAgain(mo, st, &phase, desc)
 		}
-		return ""
+		mo.stable()
+		phase = 3
+		return mo.returnOracle(st, desc)
 	}
 
-	for _, tok := range h {
+	for i, tok := range h {
 		if phase == 3 {
 			break
 		}
+		st.used = i + 1
 		switch {
 		case tok == "S":
-			hd := mo.newHandler()
-			started[nh] = hd
-			nh++
-			st.handlers++
-			st.events++
+			hd := mo.newHandler(nil)
+			handlers = append(handlers, hd)
 			mo.send(hd, +1)
 		case tok[0] == 'F':
 			var k int
 			fmt.Sscanf(tok[1:], "%d", &k)
-			st.events++
 			if phase >= 1 {
 				st.finishAfterSig = true
 			}
-			mo.send(started[k], -1)
+			mo.send(handlers[k], -1)
 		case tok == "I" || tok == "T":
-			mo.signal(vf19SigOf(tok))
-			if phase >= 1 {
-				st.secondSignal = true
-			}
-		case tok == "C":
-			mo.mu.Lock()
-			st.zeroAtCall = mo.delivered == 0 && mo.completed == mo.issued
-			mo.mu.Unlock()
-			if mo.issued > mo.completed {
-				// let the gap senders reach their channel send (not decisive)
-				for i := 0; i < 50; i++ {
-					if mo.blockedSenders(mo.gidsCopy()) > 0 {
-						break
-					}
-					time.Sleep(10 * time.Microsecond)
+			if phase == 0 {
+				if msg := firstSignal(vf19SigOf(tok)); msg != "" {
+					return msg
 				}
+				continue
 			}
-			mo.callWait(1, true)
-			phase = 2
+			st.secondSignal = true
+			mo.signal(vf19SigOf(tok))
+		case tok == "C":
+			callTrue()
 		}
 		switch phase {
 		case 0:
-			ret := mo.settle(0)
-			mo.mu.Lock()
-			sigSent := mo.nsig > 0
-			v, pv := mo.waitVal[0], mo.panicVal
-			d := mo.delivered
-			mo.mu.Unlock()
-			if pv != nil {
-				return fmt.Sprintf("VIOL[c19-panic]: wait(false) panicked: %v; %s", pv, desc())
-			}
-			if ret && !sigSent {
-				return fmt.Sprintf("VIOL[c19-wait-false-return]: wait(false) returned %v before any signal was sent; %s", v, desc())
-			}
-			if sigSent {
-				if !ret {
-					if mo.hung(0) {
-						return fmt.Sprintf("VIOL[c19-wait-false-hang]: wait(false) does not return although the signal was delivered; %s", desc())
-					}
-					mo.mu.Lock()
-					v = mo.waitVal[0]
-					mo.mu.Unlock()
-				}
-				if v != vf19SigOf(tok) {
-					return fmt.Sprintf("VIOL[c19-wait-false-return]: wait(false) returned %v, the signal sent was %v; %s", v, vf19SigOf(tok), desc())
-				}
-				st.zeroAtSignal = d == 0
-				phase = 1
+			if mo.settle(0) {
+				mo.mu.Lock()
+				v := mo.waitVal[0]
+				mo.mu.Unlock()
+				return fmt.Sprintf("VIOL[c19-wait-false-return]: wait(false) returned %v before any signal was sent; %s", v, desc)
 			}
 		case 1:
-			st.gapEvents = st.gapEvents || tok != "I" && tok != "T" || true
+			st.gapEvents = true
 		case 2:
 			if msg := checkTrue(); msg != "" {
 				return msg
@@ -424,31 +535,18 @@ func vf19RunHist(h vf19Hist, st *vf19HistStats) string {
 		}
 	}
 	if phase == 0 {
-		// history without signal: end it with one
-		mo.signal(syscall.SIGINT)
-		if !mo.settle(0) && mo.hung(0) {
-			return fmt.Sprintf("VIOL[c19-wait-false-hang]: wait(false) does not return although the signal was delivered; %s + final I", desc())
+		if msg := firstSignal(syscall.SIGINT); msg != "" {
+			return msg + " + I appended"
 		}
-		mo.mu.Lock()
-		v := mo.waitVal[0]
-		mo.mu.Unlock()
-		if v != syscall.SIGINT {
-			return fmt.Sprintf("VIOL[c19-wait-false-return]: wait(false) returned %v, the signal sent was %v; %s + final I", v, syscall.SIGINT, desc())
-		}
-		phase = 1
 	}
 	if phase == 1 {
-		mo.mu.Lock()
-		st.zeroAtCall = mo.delivered == 0 && mo.completed == mo.issued
-		mo.mu.Unlock()
-		mo.callWait(1, true)
-		phase = 2
+		callTrue()
 		if msg := checkTrue(); msg != "" {
-			return msg
+			return msg + " + C appended"
 		}
 	}
 	if phase == 2 {
-		// wait(true) legitimately still running: a final signal must end it
+		// wait(true) is legitimately still running: a final signal must end it
 		mo.mu.Lock()
 		have2 := mo.nsig == 2
 		mo.mu.Unlock()
@@ -457,43 +555,12 @@ func vf19RunHist(h vf19Hist, st *vf19HistStats) string {
 			st.secondSignal = true
 		}
 		if msg := checkTrue(); msg != "" {
-			return msg + " + final I"
+			return msg + " + final I appended"
 		}
 		if phase != 3 {
-			return fmt.Sprintf("VIOL[c19-shutdown-hang]: wait(true) still running at the end of the history; %s", desc())
+			return fmt.Sprintf("VIOL[c19-shutdown-hang]: wait(true) still running at the end; %s", desc)
 		}
 	}
-	return ""
-}
-
-func (mo *vf19Mon) gidsCopy() map[int]bool {
-	mo.mu.Lock()
-	defer mo.mu.Unlock()
-	g := make(map[int]bool, len(mo.gids))
-	for k := range mo.gids {
-		g[k] = true
-	}
-	return g
-}
-
-// checkTrueAgain is reached when wait(true) returned while the hang rule was
-// being evaluated (slow machine): evaluate the return oracle after all.
-func checkTrueAgain(mo *vf19Mon, st *vf19HistStats, phase *int, desc func() string) string {
-	mo.stable()
-	mo.mu.Lock()
-	defer mo.mu.Unlock()
-	v := mo.waitVal[1]
-	okZero := v == syscall.SIGTERM && mo.delivered == 0
-	okSig := mo.nsig == 2 && mo.sigDone[1] && v == mo.sigVal[1]
-	if !okZero && !okSig {
-		return fmt.Sprintf("VIOL[c19-wait-true-return]: wait(true) returned %v with %d handlers active and second signal delivered=%v; %s", v, mo.delivered, mo.nsig == 2 && mo.sigDone[1], desc())
-	}
-	if okSig && !okZero {
-		st.endedBySignal = true
-	} else {
-		st.endedByZero = true
-	}
-	*phase = 3
 	return ""
 }
 
@@ -508,6 +575,9 @@ func vf19HistClasses(prefix string, st *vf19HistStats) ([]string, bool) {
 	if st.finishAfterSig {
 		cls = append(cls, prefix+"-finish-after-signal")
 	}
+	if st.gapEvents {
+		cls = append(cls, prefix+"-events-sent-between-the-two-waits")
+	}
 	if st.secondSignal {
 		cls = append(cls, prefix+"-second-signal")
 	}
@@ -520,7 +590,7 @@ func vf19HistClasses(prefix string, st *vf19HistStats) ([]string, bool) {
 	return cls, st.zeroAtSignal || st.finishAfterSig
 }
 
-// vf19ValidNext lists the tokens that may follow a prefix.
+// vf19GenState lists the tokens that may follow a prefix.
 type vf19GenState struct {
 	nStarted int
 	active   []int
@@ -551,17 +621,17 @@ func (g *vf19GenState) apply(tok string) {
 
 func (g *vf19GenState) next(maxHandlers int) []string {
 	var out []string
+	if g.nsig >= 1 && !g.called {
+		out = append(out, "C")
+	}
+	if g.nsig < 2 {
+		out = append(out, "I", "T")
+	}
 	if g.nStarted < maxHandlers {
 		out = append(out, "S")
 	}
 	for _, a := range g.active {
 		out = append(out, fmt.Sprintf("F%d", a))
-	}
-	if g.nsig < 2 {
-		out = append(out, "I", "T")
-	}
-	if g.nsig >= 1 && !g.called {
-		out = append(out, "C")
 	}
 	return out
 }
@@ -572,75 +642,66 @@ func (g *vf19GenState) clone() *vf19GenState {
 	return &c
 }
 
-// TestVerifC19TermIdle is the fixed regression case of the idle shutdown: it
-// runs first so that a tree with that defect fails after 2 s, not after a long
-// search.
-func TestVerifC19TermIdle(t *testing.T) {
-	e := ev.For("C19")
-	cases := []vf19Hist{{"I", "C"}, {"S", "F0", "I", "C"}, {"T", "C"}}
-	if rc := os.Getenv("VERIF_REPLAY_CASE"); rc != "" {
-		var h vf19Hist
-		if err := json.Unmarshal([]byte(rc), &h); err != nil {
-			t.Fatalf("bad replay case: %v", err)
-		}
-		cases = []vf19Hist{h}
+func vf19ReplayHist(t *testing.T) bool {
+	rc := os.Getenv("VERIF_REPLAY_CASE")
+	if rc == "" {
+		return false
 	}
-	for _, h := range cases {
-		var st vf19HistStats
-		if msg := vf19RunHist(h, &st); msg != "" {
-			js, _ := json.Marshal(h)
-			fmt.Printf("VERIF-REPLAY-CASE: %s\n", js)
-			t.Fatalf("%s", msg)
-		}
-		cls, nt := vf19HistClasses("term-idle", &st)
-		hh := h
-		e.Case(ev.Hash("idle", strings.Join(h, " ")), nt, cls, func() any { return map[string]any{"mode": "fixed", "history": hh} })
+	var h vf19Hist
+	if err := json.Unmarshal([]byte(rc), &h); err != nil {
+		t.Fatalf("bad replay case: %v", err)
 	}
+	var st vf19HistStats
+	if msg := vf19RunHist(h, &st); msg != "" {
+		t.Fatalf("%s", msg)
+	}
+	return true
 }
 
-// TestVerifC19TermEnum enumerates completely all histories up to a length bound.
+// TestVerifC19TermEnum enumerates completely all histories up to a length
+// bound, shortest first within each branch; the idle-shutdown histories
+// ("I C", "T C") are among the very first, so a tree with that defect fails
+// after one 2 s observation instead of after a long search.
 func TestVerifC19TermEnum(t *testing.T) {
+	if vf19ReplayHist(t) {
+		return
+	}
 	e := ev.For("C19")
-	maxLen, maxH := 5, 2
+	maxLen, maxH := 6, 2
 	if ev.Thorough() {
 		maxLen, maxH = 7, 3
 	}
-	e.Rule(fmt.Sprintf("term-enum: every valid token history (S, F<k>, I, T, C; see harness) of length <= %d with <= %d handlers, executed in lock-step (each event is sent from its handler's goroutine and the harness waits until it is delivered or wait has returned); non-trivial = no handler active when the first signal is delivered, or a finish after the signal; distinct by construction", maxLen, maxH))
+	e.Rule(fmt.Sprintf("term-enum: every valid token history (S = a new handler starts, F<k> = handler k finishes, I/T = SIGINT/SIGTERM, C = main calls wait(true); events between the first signal and C are sent while nobody receives) of length <= %d with <= %d handlers, executed in lock-step (each event is sent from its handler's goroutine; the harness waits until it is delivered or wait has returned); histories that only extend one in which wait(true) has already returned are not counted; non-trivial = no handler active when the first signal is delivered, or a finish after the signal; distinct by construction", maxLen, maxH))
 	shard, nshards := ev.IntEnv("VERIF_SHARD", 0), ev.IntEnv("VERIF_NSHARDS", 1)
-	if rc := os.Getenv("VERIF_REPLAY_CASE"); rc != "" {
-		var h vf19Hist
-		if err := json.Unmarshal([]byte(rc), &h); err != nil {
-			t.Fatalf("bad replay case: %v", err)
-		}
-		var st vf19HistStats
-		if msg := vf19RunHist(h, &st); msg != "" {
-			t.Fatalf("%s", msg)
-		}
-		return
-	}
 	var total, nt int64
-	idx := 0
-	var rec func(h vf19Hist, g *vf19GenState)
-	rec = func(h vf19Hist, g *vf19GenState) {
-		if len(h) > 0 {
-			idx++
-			if idx%nshards == shard {
-				var st vf19HistStats
-				if msg := vf19RunHist(h, &st); msg != "" {
-					js, _ := json.Marshal(h)
-					fmt.Printf("VERIF-REPLAY-CASE: %s\n", js)
-					t.Fatalf("%s", msg)
-				}
-				total++
-				cls, isNT := vf19HistClasses("term-enum", &st)
-				for _, c := range cls {
-					e.Class(c, 1)
-				}
-				if isNT {
-					nt++
-					if total%97 == 0 {
-						e.Sample(ev.Hash("enum", strings.Join(h, " ")), map[string]any{"mode": "enumerated", "history": append(vf19Hist(nil), h...)})
-					}
+	// The first level below the root is distributed over the shards by the index
+	// of the (first, second) token pair.
+	pair := 0
+	var rec func(h vf19Hist, g *vf19GenState, mine bool)
+	rec = func(h vf19Hist, g *vf19GenState, mine bool) {
+		if len(h) == 2 {
+			pair++
+			mine = pair%nshards == shard
+		}
+		if len(h) > 0 && (mine || (len(h) == 1 && shard == 0)) {
+			var st vf19HistStats
+			if msg := vf19RunHist(h, &st); msg != "" {
+				js, _ := json.Marshal(h)
+				fmt.Printf("VERIF-REPLAY-CASE: %s\n", js)
+				t.Fatalf("%s", msg)
+			}
+			if st.used < len(h) {
+				return // wait(true) had returned before the last token: same as a shorter history
+			}
+			total++
+			cls, isNT := vf19HistClasses("term-enum", &st)
+			for _, c := range cls {
+				e.Class(c, 1)
+			}
+			if isNT {
+				nt++
+				if nt%53 == 1 {
+					e.Sample(ev.Hash("enum", strings.Join(h, " ")), map[string]any{"mode": "enumerated", "history": strings.Join(h, " ")})
 				}
 			}
 		}
@@ -650,10 +711,10 @@ func TestVerifC19TermEnum(t *testing.T) {
 		for _, tok := range g.next(maxH) {
 			g2 := g.clone()
 			g2.apply(tok)
-			rec(append(append(vf19Hist(nil), h...), tok), g2)
+			rec(append(append(vf19Hist(nil), h...), tok), g2, mine)
 		}
 	}
-	rec(nil, &vf19GenState{})
+	rec(nil, &vf19GenState{}, false)
 	e.Bulk(total, nt)
 	e.Subspace(fmt.Sprintf("monitor histories of <= %d tokens, <= %d handlers", maxLen, maxH), total)
 }
@@ -663,16 +724,20 @@ func vf19DrawHist(rt *rapid.T, maxLen, maxH int) vf19Hist {
 	var h vf19Hist
 	n := rapid.IntRange(1, maxLen).Draw(rt, "len")
 	for i := 0; i < n; i++ {
-		opts := g.next(maxH)
-		// weight: handler events 3x
 		var w []string
+		opts := g.next(maxH)
+		if len(opts) == 0 {
+			break
+		}
 		for _, o := range opts {
 			k := 1
-			if o == "S" || o[0] == 'F' {
+			switch {
+			case o == "S":
+				k = 6
+			case o[0] == 'F':
 				k = 3
-			}
-			if o == "C" {
-				k = 4
+			case o == "C":
+				k = 5
 			}
 			for ; k > 0; k-- {
 				w = append(w, o)
@@ -687,31 +752,34 @@ func vf19DrawHist(rt *rapid.T, maxLen, maxH int) vf19Hist {
 
 func TestVerifC19TermMachine(t *testing.T) {
 	e := ev.For("C19")
-	e.Rule("term-machine: rapid-generated token histories of up to 40 tokens with up to 8 handlers (same alphabet and lock-step execution as term-enum); non-trivial as in term-enum; fingerprint = token list")
-	e.Assume("the Go runtime's goroutine dump states ('select', 'chan send') are trusted for the decision 'wait has not returned'")
+	e.Rule("term-machine: rapid-generated token histories of up to 40 tokens with up to 8 handlers (same alphabet and lock-step execution as term-enum); non-trivial as in term-enum; fingerprint = executed token list")
+	e.Assume("the goroutine states printed by runtime.Stack ('select', 'chan send') are trusted for the decisions 'wait is parked' and 'this sender's event was not delivered'")
 	e.Floor("term-machine-zero-active-at-signal/term-machine", 0.10)
-	e.Floor("term-machine-finish-after-signal/term-machine", 0.15)
+	e.Floor("term-machine-finish-after-signal/term-machine", 0.12)
 	rapid.Check(t, func(rt *rapid.T) {
 		h := vf19DrawHist(rt, 40, 8)
 		var st vf19HistStats
 		if msg := vf19RunHist(h, &st); msg != "" {
 			rt.Fatalf("%s", msg)
 		}
+		h = h[:st.used]
 		cls, nt := vf19HistClasses("term-machine", &st)
-		e.Case(ev.Hash("machine", strings.Join(h, " ")), nt, cls, func() any { return map[string]any{"mode": "lock-step", "history": h} })
+		e.Case(ev.Hash("machine", strings.Join(h, " ")), nt, cls, func() any {
+			return map[string]any{"mode": "lock-step", "history": strings.Join(h, " ")}
+		})
 	})
 }
 
 // TestVerifC19TermFree: handlers, signals and main run freely (meant for -race).
 func TestVerifC19TermFree(t *testing.T) {
 	e := ev.For("C19")
-	e.Rule("term-free: k handler goroutines each doing start, delay, finish; a signal goroutine; optionally a second signal; main calls wait(false) then wait(true); all delays generated (0-200 us); oracle: wait(false) returns the first signal, wait(true) returns, and at its return either the delivered events sum to zero (SIGTERM) or the second signal was delivered (that signal); non-trivial = a handler event was delivered after the first signal")
+	e.Rule("term-free: k <= 6 handler goroutines each doing delay, start, delay, finish; a signal goroutine; optionally a second signal; main calls wait(false), then after a delay wait(true); all delays generated (0-200 us); oracle: wait(false) returns the first signal; wait(true) returns (every handler finishes eventually), and at its return either the delivered events sum to zero (SIGTERM) or the second signal was delivered (that signal); non-trivial = a handler event was delivered after the first signal")
 	rapid.Check(t, func(rt *rapid.T) {
 		k := rapid.IntRange(0, 6).Draw(rt, "handlers")
 		dl := func(name string) time.Duration {
 			return time.Duration(rapid.SampledFrom([]int{0, 0, 1, 10, 50, 200}).Draw(rt, name)) * time.Microsecond
 		}
-		type hd struct{ d0, d1 time.Duration }
+		type hd struct{ BeforeStart, BeforeFinish time.Duration }
 		hs := make([]hd, k)
 		for i := range hs {
 			hs[i] = hd{dl("d0"), dl("d1")}
@@ -721,101 +789,65 @@ func TestVerifC19TermFree(t *testing.T) {
 		second := rapid.IntRange(0, 3).Draw(rt, "second") == 0
 		sig2 := vf19SigOf(rapid.SampledFrom([]string{"I", "T"}).Draw(rt, "sig2"))
 		sig2Delay := dl("sig2Delay")
-		desc := fmt.Sprintf("free-running: %d handlers %v, first signal %v after %v, wait(true) called after %v, second signal %v (%v after %v)", k, hs, sig1, sigDelay, callDelay, second, sig2, sig2Delay)
+		desc := fmt.Sprintf("free-running: %d handlers %v, first signal %v after %v, wait(true) called %v after wait(false) returned, second signal: %v (%v after %v)", k, hs, sig1, sigDelay, callDelay, second, sig2, sig2Delay)
 
 		mo := vf19NewMon()
 		defer mo.cleanup()
-		deliveredAfterSig := false
-		var sig1Delivered bool
 		mo.callWait(0, false)
 		for i := range hs {
 			h := hs[i]
-			mo.mu.Lock()
-			mo.issued += 2
-			mo.mu.Unlock()
-			mo.wg.Add(1)
-			ready := make(chan struct{})
-			go func() {
-				defer mo.wg.Done()
-				mo.mu.Lock()
-				mo.gids[vf19GID()] = true
-				mo.mu.Unlock()
-				close(ready)
-				for _, cmd := range []int{+1, -1} {
-					if cmd > 0 {
-						time.Sleep(h.d0)
-						mo.m.onHandlerStart()
-					} else {
-						time.Sleep(h.d1)
-						mo.m.onHandlerFinish()
-					}
-					mo.mu.Lock()
-					mo.completed++
-					mo.delivered += cmd
-					if sig1Delivered {
-						deliveredAfterSig = true
-					}
-					mo.cond.Broadcast()
-					mo.mu.Unlock()
+			s := mo.newHandler(func(cmd int) {
+				if cmd > 0 {
+					time.Sleep(h.BeforeStart)
+				} else {
+					time.Sleep(h.BeforeFinish)
 				}
-			}()
-			<-ready
+			})
+			mo.send(s, +1)
+			mo.send(s, -1)
 		}
 		time.Sleep(sigDelay)
 		mo.signal(sig1)
-		// wait(false) must return sig1
 		mo.mu.Lock()
 		for !mo.waitRet[0] && !mo.sigDone[0] {
 			mo.cond.Wait()
 		}
 		mo.mu.Unlock()
-		if mo.hung0() {
+		if !mo.awaitReturn(0) {
 			rt.Fatalf("VIOL[c19-wait-false-hang]: wait(false) does not return although the signal was delivered; %s", desc)
 		}
+		sd := mo.sigDelivered(0)
 		mo.mu.Lock()
 		v1 := mo.waitVal[0]
-		sig1Delivered = true
 		mo.mu.Unlock()
-		if v1 != sig1 {
-			rt.Fatalf("VIOL[c19-wait-false-return]: wait(false) returned %v, the signal sent was %v; %s", v1, sig1, desc)
+		if v1 != sig1 || !sd {
+			rt.Fatalf("VIOL[c19-wait-false-return]: wait(false) returned %v, the signal sent was %v (delivered=%v); %s", v1, sig1, sd, desc)
 		}
 		time.Sleep(callDelay)
-		if second {
-			go func() {
+		sig2Issued := make(chan struct{})
+		go func() {
+			defer close(sig2Issued)
+			if second {
 				time.Sleep(sig2Delay)
 				mo.signal(sig2)
-			}()
-		}
+			}
+		}()
 		mo.callWait(1, true)
+		<-sig2Issued
 		// Every handler finishes eventually, so wait(true) must return.
-		if second {
-			// make sure the second signal has been issued before settling on "all delivered"
-			mo.mu.Lock()
-			for mo.nsig < 2 {
-				mo.mu.Unlock()
-				time.Sleep(20 * time.Microsecond)
-				mo.mu.Lock()
-			}
-			mo.mu.Unlock()
+		if !mo.settle(1) && !mo.awaitReturn(1) {
+			rt.Fatalf("VIOL[c19-shutdown-hang]: wait(true) does not return although every handler has finished (all senders completed, goroutine dump shows wait parked in select, 2 s passed); %s", desc)
 		}
-		if !mo.settle(1) {
-			if mo.hung(1) {
-				rt.Fatalf("VIOL[c19-shutdown-hang]: wait(true) does not return although every handler has finished (all senders completed, goroutine dump shows wait parked in select, 2 s passed); %s", desc)
-			}
+		mo.stable()
+		var st vf19HistStats
+		if msg := mo.returnOracle(&st, desc); msg != "" {
+			rt.Fatalf("%s", msg)
 		}
-		mo.stableFree()
 		mo.mu.Lock()
-		v := mo.waitVal[1]
-		okZero := v == syscall.SIGTERM && mo.delivered == 0
-		okSig := mo.nsig == 2 && mo.sigDone[1] && v == mo.sigVal[1]
-		d := mo.delivered
-		nt := deliveredAfterSig
+		nt := mo.afterSig > 0
 		mo.mu.Unlock()
-		if !okZero && !okSig {
-			rt.Fatalf("VIOL[c19-wait-true-return]: wait(true) returned %v with %d handlers active (delivered events); %s", v, d, desc)
-		}
 		cls := []string{"term-free"}
-		if okSig && !okZero {
+		if st.endedBySignal {
 			cls = append(cls, "term-free-ended-by-signal")
 		} else {
 			cls = append(cls, "term-free-ended-by-zero-handlers")
@@ -825,72 +857,4 @@ func TestVerifC19TermFree(t *testing.T) {
 		}
 		e.Case(ev.Hash("free", desc), nt, cls, func() any { return map[string]any{"mode": "free-running", "case": desc} })
 	})
-}
-
-// hung0: wait(false) after the first signal was delivered.
-func (mo *vf19Mon) hung0() bool {
-	mo.mu.Lock()
-	ret := mo.waitRet[0]
-	mo.mu.Unlock()
-	if ret {
-		return false
-	}
-	// the signal was received by wait(false); it is about to return.  Apply the
-	// rule with "all senders completed" replaced by "the signal sender completed".
-	t0 := time.Now()
-	for {
-		mo.mu.Lock()
-		ret, gid := mo.waitRet[0], mo.waitGID[0]
-		mo.mu.Unlock()
-		if ret {
-			return false
-		}
-		inSelect := false
-		for _, g := range vf19Dump() {
-			if g.id == gid && g.state == "select" {
-				inSelect = true
-			}
-		}
-		if inSelect && time.Since(t0) >= 2*time.Second {
-			return true
-		}
-		if time.Since(t0) > vf19Watchdog {
-			vf19Inconclusive("monitor: wait(false) neither returned nor parked within %v", vf19Watchdog)
-		}
-		time.Sleep(time.Millisecond)
-	}
-}
-
-// stableFree: after wait(true) returned in free-running mode, wait until every
-// sender that has not completed is parked in its send (sleeping ones get there).
-func (mo *vf19Mon) stableFree() {
-	t0 := time.Now()
-	for {
-		mo.mu.Lock()
-		pending := mo.issued - mo.completed
-		gids := make(map[int]bool, len(mo.gids))
-		for g := range mo.gids {
-			gids[g] = true
-		}
-		mo.mu.Unlock()
-		if pending == 0 {
-			return
-		}
-		busy := 0
-		for _, g := range vf19Dump() {
-			if gids[g.id] && g.state != "chan send" {
-				busy++
-			}
-		}
-		mo.mu.Lock()
-		again := mo.issued - mo.completed
-		mo.mu.Unlock()
-		if busy == 0 && again == pending {
-			return
-		}
-		if time.Since(t0) > vf19Watchdog {
-			vf19Inconclusive("monitor: free-running senders did not settle within %v", vf19Watchdog)
-		}
-		time.Sleep(50 * time.Microsecond)
-	}
 }
